@@ -16,6 +16,7 @@ pub struct Ctx {
     ops: File,
     out: BufWriter<File>,
     pub n_ops: u64,
+    pub last_op: String,
     pub failures: Vec<(String, Vec<String>)>,
     pub stats: BTreeMap<String, u64>,
     pub samples: Vec<String>,
@@ -40,6 +41,7 @@ impl Ctx {
             rng: Rng::new(seed),
             thorough,
             soak: false,
+            last_op: String::new(),
             prop: prop.to_string(),
             ops: File::create(format!("{}/ops.txt", dir)).unwrap(),
             out: BufWriter::new(File::create(format!("{}/impl.txt", dir)).unwrap()),
@@ -64,6 +66,7 @@ impl Ctx {
                 return "skipped".to_string();
             }
         }
+        self.last_op = line.to_string();
         self.ops.write_all(line.as_bytes()).unwrap();
         self.ops.write_all(b"\n").unwrap();
         let r = match std::panic::catch_unwind(|| crate::ops::exec(line)) {
@@ -107,6 +110,12 @@ impl Ctx {
             let _ = self.oracle.write_all(txt.as_bytes());
         }
         self.count("oracle_failures");
+    }
+
+    /// behaviour NO property speaks about differs from what the harness expected (stage functions of the parser, wording of
+    /// messages): counted and shown in the evidence, never a failure
+    pub fn note(&mut self, what: &str) {
+        self.count(&format!("note:{}", what.replace(' ', "_")));
     }
 
     pub fn finish(&mut self, dir: &str) {
